@@ -1,13 +1,13 @@
 SPECIFICATION SpecX
 CONSTANTS Names <- NamesMB Depth = 3 Vals <- ValsX Sep = 46 Design = "list" Base <- NoBase MaxSlots = 6
   Ends <- Ends0 Strs <- None Seps <- None Asgs <- None Elems <- None
-  Configs <- NodeConfigs OptNames <- OptAB SecNames <- SecAE Values <- ValsDocQ Decos <- Decos1 MaxNodes = 2 MaxDepth = 1
-  Routes <- RDocs Cfgs <- CfgTN PrePaths <- PreD
+  Configs <- NodeConfigsQ OptNames <- OptAB SecNames <- SecA Values <- ValsDocQ Decos <- Decos1 MaxNodes = 2 MaxDepth = 1
+  Routes <- RDocs Cfgs <- CfgTN SingleKinds <- SKAssign PrePaths <- PreD
   LoadKinds <- LoadB TwoFiles = TRUE EnvCalls <- None ArgCalls <- None ClearLists <- None
   MsgSets <- None MsgGets <- None NodeBases <- BasesQ FputSeps <- None
   MaxOps = 2 MaxArr = 1 SinglesFirst = TRUE Observe = FALSE
 CONSTRAINT Bound
 VIEW ViewF
 INVARIANTS Refines PrefixClosed
-PROPERTIES ArrivalProp MapProp
+PROPERTIES ArrivalProp SingleProp
 CHECK_DEADLOCK FALSE
